@@ -555,8 +555,8 @@ theorem tailIterations_reach {E : St} (hpc : E.pc = 0) :
 
 /-- **The full statement of (c), repaired**: in every run of every program of the model
 generator's grammar (`Bal.okLs`), every re-entry of an activation through its tail sequence has
-the data, scope and address stack depths of the entry `E` of that activation — whatever the
-number of iterations, whatever the body does in between (calls, callees that take tail sequences
+the data, scope and address stack depths of the entry `E` of that activation (`0 < a`: a called
+function, not the top-level text, which has no return address) — whatever the number of iterations, whatever the body does in between (calls, callees that take tail sequences
 of their own, closures, loops). NOT proved for loaded programs: what is proved is
 `tail_call_constant_space_same_activation` (the same conclusion for every entry state that
 satisfies C04's run-time invariant `RunInv.WF` + `RunInv.Running`);
@@ -565,7 +565,7 @@ loaded program satisfy that invariant (the top-level text as the bottom activati
 `run_at_rest`). -/
 def TailCallConstantSpace : Prop :=
   ∀ (p : List Expr) (s0 : St), Bal.okLs p = true → Loaded p s0 →
-    ∀ (f np d l a n : Nat) (E E' : St), VmReach s0 E → Entry E f np d l a →
+    ∀ (f np d l a n : Nat) (E E' : St), VmReach s0 E → Entry E f np d l a → 0 < a →
       TailIterations E n E' → Entry E' f np d l a
 
 /-- (c) for the same activation, **no balance hypothesis, no refinement hypothesis**: `E` is the
@@ -578,22 +578,23 @@ invariant is kept by every step (`RunInv.allSpec'`, all 13 functions of the VM's
 nested runs included), an activation pushed above `top` has a longer address stack, and at
 instruction 0 the verifier's entry annotation fixes the depths. -/
 theorem reentry_has_entry_depths (b : RunInv.Base) (E E' : St) (top : RunInv.Act) (rest : List RunInv.Act)
-    (hw : RunInv.WF E) (hr : RunInv.Running b E top rest) (f np d l a : Nat) (hE : Entry E f np d l a)
+    (hw : RunInv.WF E) (hr : RunInv.Running b E top rest) (f np d l a : Nat) (hE : Entry E f np d l a) (ha0 : 0 < a)
     (hreach : RunInv.ReachAbove a E E') (ha : E'.addr.length = a) (hpc : E'.pc = 0) :
     Entry E' f np d l a ∧ RunInv.WF E' ∧ RunInv.Running b E' top rest := by
   obtain ⟨h1, h2, h3, h4, h5⟩ := RunInv.reentry_depths b E E' top rest hw hr hE.pc
+    (by intro h; have := hE.addr; rw [h] at this; simp at this; omega)
     (by rw [hE.addr]; exact hreach) (by rw [ha, hE.addr]) hpc
   exact ⟨⟨hpc, h3.trans hE.cur, h4.trans hE.data, h5.trans hE.scopes, ha⟩, h1, h2⟩
 
 /-- (c), by the number of iterations: every re-entry of the activation through a tail sequence
 has the depths of its first entry. -/
 theorem tail_call_constant_space_same_activation (b : RunInv.Base) (E : St) (top : RunInv.Act) (rest : List RunInv.Act)
-    (hw : RunInv.WF E) (hr : RunInv.Running b E top rest) (f np d l a : Nat) (hE : Entry E f np d l a) :
+    (hw : RunInv.WF E) (hr : RunInv.Running b E top rest) (f np d l a : Nat) (hE : Entry E f np d l a) (ha0 : 0 < a) :
     ∀ n E', TailIterations E n E' → Entry E' f np d l a := by
   intro n E' hit
   obtain ⟨h1, h2, h3⟩ := tailIterations_reach hE.pc hit
   rw [hE.addr] at h1 h2
-  exact (reentry_has_entry_depths b E E' top rest hw hr f np d l a hE h1 h2 h3).1
+  exact (reentry_has_entry_depths b E E' top rest hw hr f np d l a hE ha0 h1 h2 h3).1
 
 /-- what separates the proved theorem from `TailCallConstantSpace`: the invariant at the entry
 states of loaded programs. -/
@@ -601,9 +602,9 @@ theorem tailCallConstantSpace_of_invariant
     (hinv : ∀ (p : List Expr) (s0 : St), Bal.okLs p = true → Loaded p s0 → ∀ E, VmReach s0 E → E.pc = 0 →
       RunInv.WF E ∧ ∃ b top rest, RunInv.Running b E top rest) :
     TailCallConstantSpace := by
-  intro p s0 hok hl f np d l a n E E' hreach hE hit
+  intro p s0 hok hl f np d l a n E E' hreach hE ha0 hit
   obtain ⟨hw, b, top, rest, hr⟩ := hinv p s0 hok hl E hreach hE.pc
-  exact tail_call_constant_space_same_activation b E top rest hw hr f np d l a hE n E' hit
+  exact tail_call_constant_space_same_activation b E top rest hw hr f np d l a hE ha0 n E' hit
 
 /-- the repaired body relation is the old one plus the condition on the way -/
 example (f : Nat) (E T : St) (h : vmBodyAct f E T) : vmBody f E T := vmBody_of_act h
@@ -671,7 +672,7 @@ scope, one return address) running above the top level (`Base`: at instruction 4
 example : ∃ b top rest, RunInv.WF exEntry ∧ RunInv.Running b exEntry top rest ∧ Entry exEntry 2 1 0 1 1 ∧
     TailIterations exEntry 0 exEntry := by
   obtain ⟨ann, hV, hact⟩ := RunInv.actOK_of_good exEntry_good (by decide)
-  refine ⟨⟨[], [some 0], [], 0, 4⟩, ⟨2, ann, [], 1, 1⟩, [], exEntry_wf, ?_, ⟨rfl, rfl, rfl, rfl, rfl⟩, .zero⟩
+  refine ⟨⟨[], [some 0], [], 0, 4, false⟩, ⟨2, ann, [], 1, 1⟩, [], exEntry_wf, ?_, ⟨rfl, rfl, rfl, rfl, rfl⟩, .zero⟩
   exact ⟨rfl, by decide, Bal.inv_entry _ ann hV [] 1 1 _ rfl rfl rfl rfl, hact _ _ _, ⟨rfl, rfl, rfl⟩, List.suffix_refl _⟩
 
 open ZygoVerif.LegacyTail in
